@@ -365,6 +365,9 @@ def r6_persist_errors(ctx, cfg):
 
 
 def run(ctx, cfg=CFG):
+    # E-names (rules/siblingfield.py): a local named after one field of a struct is not computed from its sibling
+    from . import siblingfield
+    siblingfield.rule_names(ctx, "C04.R11", ["cascette_client_storage"])
     # E-bitfield (rules/bitfield.py): the fields of a packed word partition it (mask == 2^shift - 1)
     from . import bitfield
     bitfield.rule_bitfields(ctx, "C04.R10", ["cascette_client_storage"], floor=4)
@@ -396,4 +399,4 @@ def run(ctx, cfg=CFG):
 
 
 from .selftest import for_families as _ff  # noqa: E402
-selftest = _ff(['gate', 'slice', 'errflow', 'dirty', 'stale', 'drop', 'bitfield'])
+selftest = _ff(['gate', 'slice', 'errflow', 'dirty', 'stale', 'drop', 'bitfield', 'names'])
